@@ -50,3 +50,13 @@ check("C11", "model_checking",
   "Atomic activities, deviation bound 0-1; the evaluated-parameter cache `$params` of a task is not judged (derived on demand).",
   "stateless model checking of the implementation: replay DFS over client histories x activity orders with a store-image invariant at every quiescent state",
   "DESIGN.md section 4 C11")
+check("C17", "model_checking",
+  "Two interleaved processes ending by every pair of {complete, abort, skip, error} in both orders, each followed by a further action on the finished process, x both keep_processes settings x both stores, with message rows present; every order of queued engine work within one deviation; after every client operation at quiescence the whole store (all proc, task, message rows) is compared with the snapshot before it: nothing of an ended process remains by default, everything remains and is terminal with keep_processes, rows of the other process and message rows are untouched, further actions are refused. Plus every deploy/rm sequence up to a depth over models with 2, 1, 0 start events with the event and model tables compared after every step.",
+  "Client operations at quiescent points; bounds: 2 processes, 1 deviation, model sequences of depth 4 / 5.",
+  "stateless model checking of the implementation (replay DFS) with whole-store before/after invariants, plus explicit enumeration of model operation sequences with conformance of every step",
+  "DESIGN.md section 4 C17")
+check("C12", "model_checking",
+  "Differential exploration of crash points: for 13 workflows x client scripts x both stores, every quiescent point of the uninterrupted run (every pair in thorough) is used as eviction point (in-memory store) or engine restart point (new engine on the same SQLite file); the interrupted run repeats the same choices and client operations and its further messages (ids, times erased), client results, terminal event and final task outcomes must equal those of the uninterrupted run.",
+  "One (FIFO) schedule per run because the oracle is differential; the uninterrupted run is executed twice and must be identical; <= 12 client operations.",
+  "exhaustive enumeration of crash/eviction points over executions of the implementation with a differential (uninterrupted vs interrupted) oracle",
+  "DESIGN.md section 4 C12")
